@@ -317,13 +317,12 @@ void i_mep::pack(const locus &l, std::vector<std::byte> *p) const
 {
   const gene &g(genome_(l));
 
-  // Although 16 bit are enough to contain opcodes and parameters, they are
-  // usually stored in unsigned variables (i.e. 32 or 64 bit) for performance
-  // reasons.
-  // Anyway before hashing opcodes/parameters we convert them to 16 bit types
-  // to avoid hashing more than necessary.
-  const auto opcode(static_cast<std::uint16_t>(g.sym->opcode()));
-  assert(g.sym->opcode() <= std::numeric_limits<decltype(opcode)>::max());
+  // Opcodes are drawn from a process-wide counter (one for every symbol ever
+  // constructed) and aren't bounded by the size of the symbol set: a symbol
+  // set built from a large dataset, or a long running process, goes beyond
+  // 16 bit. Every byte of the opcode is hashed, otherwise distinct symbols
+  // (opcodes `k` and `k + 65536`) would share their packed representation.
+  const opcode_t opcode(g.sym->opcode());
 
   auto s1 = reinterpret_cast<const std::byte *>(&opcode);
   for (std::size_t i(0); i < sizeof(opcode); ++i)
